@@ -689,6 +689,92 @@ var c15Scenarios = []c15Scenario{
 			}
 		},
 	},
+	{
+		// one goroutine reads a file whose rows cannot be re-assembled into the Go
+		// type it asks for (a JSON document inside a list element does not fit:
+		// the read fails half way through a row), another reads a nested file; the
+		// scratch objects of row re-assembly come from process-wide pools. Then
+		// the same two reads once more, one after the other.
+		name:  "S12-failingReaderNextToReader",
+		cases: func(string) int { return 1 },
+		body: func(int, string) (string, func() string) {
+			type docW struct {
+				Doc string `parquet:"doc,json"`
+			}
+			type rowW struct {
+				ID    int64  `parquet:"id"`
+				Items []docW `parquet:"items"`
+			}
+			type payload struct {
+				A int `json:"a"`
+			}
+			type docR struct {
+				Doc payload `parquet:"doc,json"`
+			}
+			type rowR struct {
+				ID    int64  `parquet:"id"`
+				Items []docR `parquet:"items"`
+			}
+			type grp struct {
+				Name string  `parquet:"name"`
+				Vals []int64 `parquet:"vals"`
+			}
+			type good struct {
+				ID     int64 `parquet:"id"`
+				Groups []grp `parquet:"groups"`
+			}
+			var bad bytes.Buffer
+			bw := parquet.NewGenericWriter[rowW](&bad)
+			bw.Write([]rowW{{ID: 1, Items: []docW{{`{"a":1}`}, {`{"a":2}`}}}, {ID: 2, Items: []docW{{`{"a":3}`}, {`{"a":"not a number"}`}, {`{"a":5}`}}}, {ID: 3, Items: []docW{{`{"a":6}`}}}})
+			if err := bw.Close(); err != nil {
+				panic(err)
+			}
+			var goodRows []good
+			for i := 0; i < 6; i++ {
+				r := good{ID: int64(i)}
+				for j := 0; j <= i%3; j++ {
+					g := grp{Name: fmt.Sprintf("g%d.%d", i, j)}
+					for k := 0; k < (i+j)%3; k++ {
+						g.Vals = append(g.Vals, int64(100*i+10*j+k))
+					}
+					r.Groups = append(r.Groups, g)
+				}
+				goodRows = append(goodRows, r)
+			}
+			var gd bytes.Buffer
+			gw := parquet.NewGenericWriter[good](&gd)
+			gw.Write(goodRows)
+			if err := gw.Close(); err != nil {
+				panic(err)
+			}
+			want := fmt.Sprintf("%v", goodRows)
+			readBad := func() string {
+				_, err := parquet.Read[rowR](bytes.NewReader(bad.Bytes()), int64(bad.Len()))
+				if err == nil {
+					return "bad:no-error MISMATCH"
+				}
+				return "bad:error"
+			}
+			readGood := func() string {
+				rows, err := parquet.Read[good](bytes.NewReader(gd.Bytes()), int64(gd.Len()))
+				if err != nil {
+					return "good:" + err.Error() + " MISMATCH"
+				}
+				if got := fmt.Sprintf("%v", rows); got != want {
+					return "good:rows differ MISMATCH " + got
+				}
+				return "good:ok"
+			}
+			return "bad+good", func() string {
+				res := make([]string, 2)
+				var wg vsync.WaitGroup
+				c15Spawn(&wg, func() { res[0] = readBad() + "," + readBad() })
+				c15Spawn(&wg, func() { res[1] = readGood() + "," + readGood() })
+				wg.Wait()
+				return strings.Join(res, " || ") + " || after:" + readBad() + "," + readGood() + "," + readGood()
+			}
+		},
+	},
 }
 
 // c15S11Seqs: every sequence of <=3 operations over ReadPage and the three seeks.
@@ -811,7 +897,7 @@ func init() {
 		ID:    "C15",
 		Level: "model_checking",
 		MC:    true,
-		Rule: "11 scenarios on the real library under the cooperative scheduler - S1 asyncPages consumer sequences (all sequences of <=3 (4 thorough) of ReadPage / SeekToRow(0|5|11) / Close, plus use after Close) against the readPages goroutine; S2 async GenericReader with seeks; S3 two goroutines sharing one File opened with SkipPageIndex+SkipBloomFilters (lazy CAS-published offset index, column index, bloom filter, seek+read); S4 two ConcurrentRowGroupWriters filled concurrently, committed in order; S5 an independent writer next to a reader / another writer sharing the process-wide pools (pool hit/miss chosen by the explorer, poison on release); S6 one goroutine per ColumnWriter; S7 two independent writers of a struct type no writer has seen before, through the reflection path (process-wide struct field cache); S9 two zstd codec values with different levels, one per goroutine; S8 two goroutines on one codec value; S10 one goroutine copying the row groups of an open File verbatim into a new file while another seeks and reads in the same File, which is then read again; S11 the asyncPages protocol (all sequences of <=3 of ReadPage / SeekToRow(0|5|11)) over a chunk whose second data page is damaged: the error must reach the consumer (at the serial position or earlier, never a clean end or another page) - x EVERY schedule within the deviation bound (1 quick, 2 thorough): a deviation is a preemption, the choice of a goroutine other than the lowest-id enabled one at a blocking point, or a pool miss; select choices are enumerated freely; " +
+		Rule: "12 scenarios on the real library under the cooperative scheduler - S1 asyncPages consumer sequences (all sequences of <=3 (4 thorough) of ReadPage / SeekToRow(0|5|11) / Close, plus use after Close) against the readPages goroutine; S2 async GenericReader with seeks; S3 two goroutines sharing one File opened with SkipPageIndex+SkipBloomFilters (lazy CAS-published offset index, column index, bloom filter, seek+read); S4 two ConcurrentRowGroupWriters filled concurrently, committed in order; S5 an independent writer next to a reader / another writer sharing the process-wide pools (pool hit/miss chosen by the explorer, poison on release); S6 one goroutine per ColumnWriter; S7 two independent writers of a struct type no writer has seen before, through the reflection path (process-wide struct field cache); S9 two zstd codec values with different levels, one per goroutine; S8 two goroutines on one codec value; S10 one goroutine copying the row groups of an open File verbatim into a new file while another seeks and reads in the same File, which is then read again; S11 the asyncPages protocol (all sequences of <=3 of ReadPage / SeekToRow(0|5|11)) over a chunk whose second data page is damaged: the error must reach the consumer (at the serial position or earlier, never a clean end or another page); S12 a reader whose rows fail to re-assemble half way through a row next to a reader of a nested file, then both again one after the other - x EVERY schedule within the deviation bound (1 quick, 2 thorough): a deviation is a preemption, the choice of a goroutine other than the lowest-id enabled one at a blocking point, or a pool miss; select choices are enumerated freely; " +
 			"states = distinct scheduler state hashes, transitions = scheduling steps; non-trivial = every distinct schedule",
 		Assumptions: []string{
 			"scheduling points are the library's sync / sync.atomic / channel / go operations (sequential consistency at that granularity); plain-memory data races are outside the cooperative scheduler's view and are looked for by the free-running race-detector pass of the same scenario bodies (sampling; coverage.supplement)",
